@@ -24,6 +24,17 @@ SLICE_OF = {"Int": "Ints", "Int8": "Ints8", "Int16": "Ints16", "Int32": "Ints32"
             "Uint16": "Uints16", "Uint32": "Uints32", "Uint64": "Uints64"}
 TIMES = [0, 1, -1, 981173106123456789, 1700000000000000000, 1700000000123000000, 253402300799999999999 // 1000 * 0 + 4102444800000000000, -2208988800000000000]
 DURS = [0, 1, -1, 999, 1000, 1500000, 1000000000, 3600000000000, -2500000000, 2**62]
+# addresses: 4-byte and 16-byte forms, v4-in-v6, unspecified, and lengths that are neither (String() has a form for those too)
+IPS = [b"\x7f\x00\x00\x01", bytes(range(16)), b"\x00" * 16, b"\xc0\xa8\x00\x01", b"\x00" * 10 + b"\xff\xff\x0a\x00\x00\x01", b"\x00" * 4, b"\xff" * 16,
+       b"", b"\x01\x02\x03\x04\x05"]
+MACS = [b"\x00\x14\x22\x01\x23\x45", b"\xff" * 6, b"\x02\x00\x5e\x10\x00\x00\x00\x01", b"", b"\x00" * 20]
+PREFIXES = [([192, 168, 0, 0], [255, 255, 0, 0]), ([192, 168, 0, 0], [255, 255, 255, 0]), ([10, 0, 0, 0], [0, 0, 0, 0]), ([10, 1, 2, 3], [255, 255, 255, 255]),
+            (list(range(16)), [255] * 8 + [0] * 8), ([10, 0, 0, 0], [255, 0, 255, 0])]
+# what C08 / C09 name: IPs of 4 or 16 bytes, 6-byte MACs, canonical prefixes (the binary format has no notation for the others:
+# the bundled decoder rejects an 8- or 20-byte hardware address or an empty IP, and a non-contiguous mask has no prefix length)
+IPS_BIN = [x for x in IPS if len(x) in (4, 16)]
+MACS_BIN = [x for x in MACS if len(x) == 6]
+PREFIXES_BIN = PREFIXES[:5]
 
 
 def f64bits(x):
@@ -150,11 +161,12 @@ class Gen:
         elif k == "Stringer":
             op.update(m="Stringer", v={"t": "stringer", "s": b64(self.bytes_()), "nil": r.random() < 0.15})
         elif k == "IPAddr":
-            op.update(m="IPAddr", v={"t": "ip", "ip": list(r.choice([b"\x7f\x00\x00\x01", bytes(range(16)), b"\x00" * 16, b"\xc0\xa8\x00\x01"]))})
+            op.update(m="IPAddr", v={"t": "ip", "ip": list(r.choice(IPS_BIN if self.binary_safe else IPS))})
         elif k == "MACAddr":
-            op.update(m="MACAddr", v={"t": "mac", "ip": list(r.choice([b"\x00\x14\x22\x01\x23\x45", b"\xff" * 6]))})
+            op.update(m="MACAddr", v={"t": "mac", "ip": list(r.choice(MACS_BIN if self.binary_safe else MACS))})
         elif k == "IPPrefix":
-            op.update(m="IPPrefix", v={"t": "ipnet", "ip": [192, 168, 0, 0], "mask": [255, 255, r.choice([0, 255]), 0]})
+            pip, pmask = r.choice(PREFIXES_BIN if self.binary_safe else PREFIXES)
+            op.update(m="IPPrefix", v={"t": "ipnet", "ip": pip, "mask": pmask})
         elif k in ("AnErr", "Err"):
             op.update(m=k, v=dict({"t": "error", "s": b64(self.bytes_())}, **self.err_kind(kname, keyed)))
         return op
@@ -234,11 +246,12 @@ class Gen:
             self.field_errs.append(tv)
             return tv
         if k == "ip":
-            return {"t": "ip", "ip": list(r.choice([b"\x7f\x00\x00\x01", bytes(range(16)), b"\x00" * 16, b"\xc0\xa8\x00\x01"]))}
+            return {"t": "ip", "ip": list(r.choice(IPS_BIN if self.binary_safe else IPS))}
         if k == "mac":
-            return {"t": "mac", "ip": list(r.choice([b"\x00\x14\x22\x01\x23\x45", b"\xff" * 6]))}
+            return {"t": "mac", "ip": list(r.choice(MACS_BIN if self.binary_safe else MACS))}
         if k == "ipnet":
-            return {"t": "ipnet", "ip": [192, 168, 0, 0], "mask": [255, 255, r.choice([0, 255]), 0]}
+            pip, pmask = r.choice(PREFIXES_BIN if self.binary_safe else PREFIXES)
+            return {"t": "ipnet", "ip": pip, "mask": pmask}
         if k == "raw":
             raw = r.choice([b"1", b'"s"', b"null", b"true", b"-1.5e3", b"[1,2]", b"{}", b'[{"a":null}]', b'{"a":{"b":[]}}'])
             if raw[:1] in (b"[", b"{"):
